@@ -12,6 +12,8 @@ import Mathlib.Tactic.FieldSimp
 import Mathlib.Tactic.Positivity
 import Mathlib.Tactic.NormNum
 import Mathlib.Analysis.SpecialFunctions.Trigonometric.Basic
+import Mathlib.Algebra.BigOperators.Intervals
+import Mathlib.Tactic.LinearCombination
 
 namespace GridVerif.C13
 open GridVerif GridVerif.Cubic
@@ -279,6 +281,98 @@ theorem fourier2_sum_zero_at (a00 a01 a02 a10 a11 a12 a20 a21 a22 : ℝ) (s1 s2 
   · rw [sum_map_mul_const, sum_outer]
     simp only [List.map_cons, List.prod_cons, fourier2_dir_sum_two]
     ring
+
+
+theorem list_range_sum_eq (n : ℕ) (f : ℕ → ℝ) : ((List.range n).map f).sum = ∑ i ∈ Finset.range n, f i := by
+  induction n with
+  | zero => simp
+  | succ n ih => rw [List.range_succ, List.map_append, List.sum_append, ih, Finset.sum_range_succ]; simp
+
+/-- `sin θ · Σ_{i<n} sin((2i+1)θ) = sin²(nθ)` (telescoping). -/
+theorem sin_odd_sum (n : ℕ) (θ : ℝ) :
+    Real.sin θ * ∑ i ∈ Finset.range n, Real.sin ((2 * (i : ℝ) + 1) * θ) = Real.sin (n * θ) ^ 2 := by
+  induction n with
+  | zero => simp
+  | succ n ih =>
+    rw [Finset.sum_range_succ, mul_add, ih]
+    have e1 : (2 * (n : ℝ) + 1) * θ = n * θ + (n * θ + θ) := by ring
+    have e2 : ((n + 1 : ℕ) : ℝ) * θ = n * θ + θ := by push_cast; ring
+    rw [e1, e2, Real.sin_add (n * θ) (n * θ + θ), Real.sin_add (n * θ) θ, Real.cos_add (n * θ) θ]
+    have h1 := Real.sin_sq_add_cos_sq (n * θ)
+    have h2 := Real.sin_sq_add_cos_sq θ
+    linear_combination (-(Real.sin (n * θ) ^ 2)) * h2
+
+/-- **The 1-D Fourier2 factor sums to zero for every even number of points** (the sine sums over the
+nodes vanish identically; the boundary term carries `sin²(nπ/2) = 0`). -/
+theorem fourier2_dir_sum_even (k : ℕ) (hk : 1 ≤ k) : (fourier2Dir (2 * k) : List ℝ).sum = 0 := by
+  have hn : (0 : ℝ) < ((2 * k : ℕ) : ℝ) := by positivity
+  have hpi := Real.pi_pos
+  unfold fourier2Dir
+  simp only [sumK_eq_sum, Elem.sin, Elem.pi, Nat.cast_ofNat, Nat.cast_one]
+  have hsn : Real.sin (Real.pi * ((2 * k : ℕ) : ℝ) / 2) = 0 := by
+    rw [show Real.pi * ((2 * k : ℕ) : ℝ) / 2 = (k : ℝ) * Real.pi by push_cast; ring]
+    exact Real.sin_nat_mul_pi k
+  simp only [hsn, mul_zero, zero_mul, zero_div, add_zero]
+  rw [list_range_sum_eq]
+  simp only [list_range_sum_eq]
+  -- pull the constants out and exchange the two sums
+  have : ∀ i ∈ Finset.range (2 * k),
+      4 * (∑ p ∈ Finset.range (2 * k - 1),
+          Real.sin ((2 * ((i + 1 : ℕ) : ℝ) - 1) / ((2 * k : ℕ) : ℝ) * ((p + 1 : ℕ) : ℝ) * Real.pi) *
+            (Real.sin (((p + 1 : ℕ) : ℝ) * Real.pi / 2) * Real.sin (((p + 1 : ℕ) : ℝ) * Real.pi / 2) / ((p + 1 : ℕ) : ℝ)))
+          / (Real.pi * ((2 * k : ℕ) : ℝ))
+      = ∑ p ∈ Finset.range (2 * k - 1),
+          (4 * (Real.sin (((p + 1 : ℕ) : ℝ) * Real.pi / 2) * Real.sin (((p + 1 : ℕ) : ℝ) * Real.pi / 2) / ((p + 1 : ℕ) : ℝ))
+            / (Real.pi * ((2 * k : ℕ) : ℝ)))
+          * Real.sin ((2 * (i : ℝ) + 1) * (((p + 1 : ℕ) : ℝ) * Real.pi / ((2 * k : ℕ) : ℝ))) := by
+    intro i _
+    rw [Finset.mul_sum, Finset.sum_div]
+    apply Finset.sum_congr rfl
+    intro p _
+    have : (2 * ((i + 1 : ℕ) : ℝ) - 1) / ((2 * k : ℕ) : ℝ) * ((p + 1 : ℕ) : ℝ) * Real.pi
+        = (2 * (i : ℝ) + 1) * (((p + 1 : ℕ) : ℝ) * Real.pi / ((2 * k : ℕ) : ℝ)) := by
+      push_cast; field_simp; ring
+    rw [this]; ring
+  rw [Finset.sum_congr rfl this, Finset.sum_comm]
+  apply Finset.sum_eq_zero
+  intro p hp
+  rw [← Finset.mul_sum]
+  have hp' : p + 1 < 2 * k := by have := Finset.mem_range.mp hp; omega
+  set θ := ((p + 1 : ℕ) : ℝ) * Real.pi / ((2 * k : ℕ) : ℝ) with hθ
+  have hθpos : 0 < θ := by positivity
+  have hθlt : θ < Real.pi := by
+    rw [hθ, div_lt_iff₀ hn]
+    have : ((p + 1 : ℕ) : ℝ) < ((2 * k : ℕ) : ℝ) := by exact_mod_cast hp'
+    nlinarith
+  have hs : Real.sin θ ≠ 0 := (Real.sin_pos_of_pos_of_lt_pi hθpos hθlt).ne'
+  have key := sin_odd_sum (2 * k) θ
+  have hz : Real.sin (((2 * k : ℕ) : ℝ) * θ) = 0 := by
+    rw [hθ, show ((2 * k : ℕ) : ℝ) * (((p + 1 : ℕ) : ℝ) * Real.pi / ((2 * k : ℕ) : ℝ)) = ((p + 1 : ℕ) : ℝ) * Real.pi by
+      field_simp]
+    exact Real.sin_nat_mul_pi (p + 1)
+  rw [hz] at key
+  have : ∑ i ∈ Finset.range (2 * k), Real.sin ((2 * (i : ℝ) + 1) * θ) = 0 := by
+    have key' : Real.sin θ * ∑ i ∈ Finset.range (2 * k), Real.sin ((2 * (i : ℝ) + 1) * θ) = 0 := by
+      rw [key]; norm_num
+    rcases mul_eq_zero.mp key' with h | h
+    · exact absurd h hs
+    · exact h
+  rw [this, mul_zero]
+
+
+/-- **Fourier2 weights sum to zero on every 3-D grid with an even number of points on some axis**,
+whatever the axes: `Σ w = V' · (Σ w_x)(Σ w_y)(Σ w_z)` and the factor of an even axis is zero. -/
+theorem fourier2_sum_zero_even (a00 a01 a02 a10 a11 a12 a20 a21 a22 : ℝ) (s0 s1 s2 : Nat)
+    (h : (∃ k, 1 ≤ k ∧ s0 = 2 * k) ∨ (∃ k, 1 ≤ k ∧ s1 = 2 * k) ∨ (∃ k, 1 ≤ k ∧ s2 = 2 * k)) :
+    ∃ W, weights [[a00, a01, a02], [a10, a11, a12], [a20, a21, a22]] [s0, s1, s2] .fourier2 = .ok W ∧
+      W.length = s0 * s1 * s2 ∧ W.sum = 0 := by
+  refine ⟨_, by simp [weights, altVolume, volume, bind, Except.bind, pure, Except.pure]; rfl, ?_, ?_⟩
+  · rw [List.length_map, length_outer]
+    simp [fourier2Dir]
+    ring
+  · rw [sum_map_mul_const, sum_outer]
+    simp only [List.map_cons, List.map_nil, List.prod_cons, List.prod_nil]
+    rcases h with ⟨k, hk, rfl⟩ | ⟨k, hk, rfl⟩ | ⟨k, hk, rfl⟩ <;> rw [fourier2_dir_sum_even k hk] <;> ring
 
 /-- **The bound fails for Fourier2** at unit axes and shape (2,8,8): `V = 128`, `Σw = 0`,
 `|Σw/V − 1| = 1 > 1/2 + 1/8 + 1/8`. -/
